@@ -30,6 +30,14 @@ func (wr *worldRun) run(c *sim.Ctx) *world.World {
 	w := world.New(c, e.W, dir, wr.prof)
 	defer w.Close()
 	w.OnCommit = func() {
+		if w.Legacy && w.SchemaFormat() < 2 {
+			// schema format 1: sqlittle refuses the file (C15 leaves formats 0/1 open)
+			c.Probe("legacy-format-1-phase")
+			return
+		}
+		if w.Legacy {
+			c.Probe("legacy-format-2-3-checked")
+		}
 		if w.Snap != nil && len(w.Snap.Tables) > 0 && wr.check != nil {
 			wr.check(c, w)
 		}
@@ -38,7 +46,7 @@ func (wr *worldRun) run(c *sim.Ctx) *world.World {
 	for i := 0; i < wr.steps; i++ {
 		w.Step()
 	}
-	if wr.final != nil && w.Snap != nil && len(w.Snap.Tables) > 0 {
+	if wr.final != nil && w.Snap != nil && len(w.Snap.Tables) > 0 && !(w.Legacy && w.SchemaFormat() < 2) {
 		wr.final(c, w)
 	}
 	return w
